@@ -285,7 +285,7 @@ def run(ctx):
     rng = ctx.rng("c03")
     thorough = ctx.tier == "thorough"
     sweep = ctx.params.get("hashseed_sweep")
-    n_domains = (12 if sweep else 45) if thorough else 7
+    n_domains = (10 if sweep else 30) if thorough else 7
     n_orders = (2 if sweep else 24) if thorough else 4
     for d in range(n_domains):
         w = gen.gen_world(rng, max_arity=2)
